@@ -73,8 +73,12 @@ int main()
     DirParam* dir = DirParam::create(npas, dpas, toldis, tolang, 0, 0, bench, cylrad, 0., breaks, codir);
     if (dir == nullptr) { delete db; continue; }
     VarioParam vp; vp.addDir(*dir);
-    bool order4 = rng.coin(0.25);
-    Vario* vario = Vario::computeFromDb(vp, db, order4 ? ECalcVario::ORDER4 : ECalcVario::VARIOGRAM);
+    // estimator: variogram, order-4 variogram, Poisson variogram, madogram, rodogram
+    int est = rng.coin(0.45) ? 0 : (int)rng.range(1, 4);
+    bool order4 = est == 1;
+    static const char* estName[5] = {"variogram", "order4", "poisson", "madogram", "rodogram"};
+    ECalcVario ecalc = est == 0 ? ECalcVario::VARIOGRAM : (est == 1 ? ECalcVario::ORDER4 : (est == 2 ? ECalcVario::POISSON : (est == 3 ? ECalcVario::MADOGRAM : ECalcVario::RODOGRAM)));
+    Vario* vario = Vario::computeFromDb(vp, db, ecalc);
     if (vario != nullptr)
     {
       double psmin = GeometryHelper::getCosineAngularTolerance(tolang);
@@ -85,13 +89,13 @@ int main()
       for (int a = 0; a < nvar; a++) for (int b = 0; b <= a; b++)
       {
         VectorDouble sw = vario->getSwVec(0, a, b, false), hh = vario->getHhVec(0, a, b, false), gg = vario->getGgVec(0, a, b, false, false, false);
-        printf("v vario calc=%s ndim=%d nvar=%d nech=%d X=%s Z=%s W=%s act=%s codir=%s psmin=%s bench=%s cylrad=%s npas=%d dpas=%s toldis=%s breaks=%s ivar=%d jvar=%d => sw=%s hh=%s gg=%s\n",
-               order4 ? "order4" : "variogram", ndim, nvar, nech, vecD(xs).c_str(), vecDNA(zs).c_str(), vecDNA(ws).c_str(), act.c_str(), vecD(cd).c_str(), dy(psmin).c_str(),
+        printf("v vario calc=%s ndim=%d nvar=%d nech=%d X=%s Z=%s W=%s act=%s codir=%s psmin=%s bench=%s cylrad=%s npas=%d dpas=%s toldis=%s breaks=%s ivar=%d jvar=%d => sw=%s hh=%s gg=%s mean=%s\n",
+               estName[est], ndim, nvar, nech, vecD(xs).c_str(), vecDNA(zs).c_str(), vecDNA(ws).c_str(), act.c_str(), vecD(cd).c_str(), dy(psmin).c_str(),
                dyNA(bench).c_str(), dyNA(cylrad).c_str(), npas, dy(dpas).c_str(), dy(toldis).c_str(), breaks.empty() ? "-" : vecD(std::vector<double>(breaks.begin(), breaks.end())).c_str(), a, b,
-               vecD(sw).c_str(), vecDNA(hh).c_str(), vecDNA(gg).c_str());
+               vecD(sw).c_str(), vecDNA(hh).c_str(), vecDNA(gg).c_str(), dyNA(vario->getMean(a)).c_str());
         st.hit(a == b ? "direct_variograms" : "cross_variograms");
       }
-      st.hit("ndim" + std::to_string(ndim)); if (order4) st.hit("order4"); if (!W.empty()) st.hit("weights"); if (!sel.empty()) st.hit("selection");
+      st.hit("ndim" + std::to_string(ndim)); st.hit(std::string("estimator_") + estName[est]); if (!W.empty()) st.hit("weights"); if (!sel.empty()) st.hit("selection");
       if (!FFFF(bench)) st.hit("bench"); if (!FFFF(cylrad)) st.hit("cylinder"); if (tolang < 90.) st.hit("angular_tolerance");
       delete vario;
     }
